@@ -4,6 +4,7 @@ import Hyeong.Driver.BigOps
 import Hyeong.Driver.ExecOps
 import Hyeong.Driver.OptOps
 import Hyeong.Driver.AppOps
+import Hyeong.Driver.CompileOps
 /-!
 hydrv — the model driver: answers the same one-line operations as harness/ (hyverif) from the
 formal model (`m.` prefix = Hyeong.Model, `s.` prefix = Hyeong.Spec). Imports core-only files.
@@ -46,6 +47,7 @@ def dispatch (f : List String) : String :=
   | ["m.clicheck", pa, fn, e, src] => cliCheckOp pa fn e src
   | ["m.debug", pa, fn, src, sc] => debugOp pa fn src sc
   | ["m.opt", l, p] => optOp l p
+  | ["m.compile", l, p] => compileOp l p
   | ["m.exec", "run1", p, i, _] => runOptOp "1" p i
   | ["m.exec", "run2", p, i, _] => runOptOp "2" p i
   | ["m.exec", mode, p, i, mx] => execOp false mode p i mx
